@@ -243,23 +243,24 @@ def addrCandidates {σ : Type} (truthy : σ → Bool) : Nat → List (Option σ)
                       else addrCandidates truthy (i + 1) r
   | i, none :: r => addrCandidates truthy (i + 1) r
 
-/-- "collect potential scripts to fulfill the input" (txbuilder.py:314-336).  The tests `if utxo.output.script:` and
-`elif not script:` are Python truth tests. -/
+/-- `if utxo.output.script:` — a Python truth test on the spent UTxO's own script -/
+def ownCandidate {σ : Type} (truthy : σ → Bool) : Option σ → Option σ
+  | some s => if truthy s then some s else none
+  | none => none
+
+/-- "collect potential scripts to fulfill the input" (txbuilder.py:314-336); `none`: the exception "Expect the output
+of the reference UTxO to have a script".  The tests `if utxo.output.script:` and `elif not script:` are Python truth
+tests. -/
 def candidates {σ : Type} (truthy : σ → Bool) (own : Option σ) (atAddr : List (Option σ)) (offer : Offer σ) :
-    Except GateErr (List (σ × Src)) :=
-  let ownTruthy := match own with
-    | some s => truthy s
-    | none => false
-  if ownTruthy then
-    match own with
-    | some s => .ok [(s, .own)]
-    | none => .ok []
-  else
+    Option (List (σ × Src)) :=
+  match ownCandidate truthy own with
+  | some s => some [(s, .own)]
+  | none =>
     match offer with
-    | .none => .ok (addrCandidates truthy 0 atAddr)
-    | .script s => if truthy s then .ok [(s, .offered)] else .ok (addrCandidates truthy 0 atAddr)
-    | .refUtxo none => .error .refWithoutScript
-    | .refUtxo (some s) => .ok [(s, .offeredRef)]
+    | .none => some (addrCandidates truthy 0 atAddr)
+    | .script s => if truthy s then some [(s, .offered)] else some (addrCandidates truthy 0 atAddr)
+    | .refUtxo none => none
+    | .refUtxo (some s) => some [(s, .offeredRef)]
 
 /-- `if script_hash(candidate_script) != input_script_hash: continue` — `ConstrainedBytes.__eq__` compares payloads -/
 def acceptsScript (candidateHash inputPaymentCredential : Bytes) : Bool := candidateHash == inputPaymentCredential
@@ -273,8 +274,8 @@ def firstMatch {σ : Type} (hash : σ → Bytes) (cred : Bytes) : List (σ × Sr
 def addScriptInput {σ : Type} (truthy : σ → Bool) (hash : σ → Bytes) (cred : Bytes) (own : Option σ)
     (atAddr : List (Option σ)) (offer : Offer σ) : Except GateErr (σ × Src) :=
   match candidates truthy own atAddr offer with
-  | .error e => .error e
-  | .ok cs =>
+  | none => .error .refWithoutScript
+  | some cs =>
     match firstMatch hash cred cs with
     | some c => .ok c
     | none => .error .noValidScript
